@@ -136,6 +136,9 @@ func (w *world) build(name string) slip.Object {
 	if pe == nil {
 		panic("harness: unknown pool object " + name)
 	}
+	if obj, ok := w.buildState(name); ok {
+		return obj
+	}
 	switch name {
 	case "inf":
 		return slip.DoubleFloat(math.Inf(1))
@@ -178,7 +181,7 @@ func sandboxInit() {
 	if devNull, err = os.OpenFile(os.DevNull, os.O_RDWR, 0); err != nil {
 		panic("harness: cannot open " + os.DevNull)
 	}
-	oneShot = 1 < len(os.Args) && (os.Args[1] == "exec" || os.Args[1] == "replay")
+	oneShot = 1 < len(os.Args) && (os.Args[1] == "exec" || os.Args[1] == "replay") && !helperMode
 	root := "/verif/.build/scratch/C09"
 	_ = os.MkdirAll(root, 0o755)
 	if !oneShot {
